@@ -158,7 +158,9 @@ def _tok(prefix="zq"):
 
 def _invalid_acl_line(rng, platform):
     tok = _tok()
-    kind = rng.choice(["soup", "broken", "proto", "addr", "number", "remark0", "lenient", "opt-upper", "dup-action"])
+    kind = rng.choice(["soup", "broken", "proto", "addr", "number", "remark0", "lenient", "opt-upper", "dup-action", "skipword"])
+    if kind == "skipword":
+        return rng.choice([f"no statistics per-entry {tok}", f"hardware ignore routable {tok}", f"my description {tok}"]), kind, tok
     if kind == "soup":
         return f"{rng.choice(['foo', 'access', 'no', 'ip', 'exit', 'interface'])} {tok} {rng.choice(['any', 'bar', '10'])}", kind, tok
     if kind == "broken":
@@ -195,6 +197,9 @@ def gen_case(rng):
             if r2 < p_valid:
                 if rng.random() < 0.25:
                     rem = grammar.gen_remark(rng, heading=heading if heading and rng.random() < 0.5 else None, uniq=f"u{idx}")
+                    if rng.random() < 0.25:  # a valid remark that merely mentions a word of the ignorable lines
+                        rem = {"text": "remark " + rng.choice(["see description below", "old rule, ignore it", "no statistics here",
+                                                               "description of the statistics", "ignore "]).strip() + f" u{idx}"}
                     lines.append([rem["text"], "valid", "remark", ""])
                 elif acl_type == "standard":
                     addr = rng.choice(["any", f"host 10.0.{idx}.1", f"10.{idx}.0.0 0.0.255.255"])
